@@ -31,6 +31,10 @@ type MutateContext interface {
 	runPreCommitActions() error
 	AddCommitAction(func())
 	setTx(tx *bbolt.Tx) MutateContext
+	// actionCounts and truncateActions let Db.Batch drop the actions registered by an attempt which bbolt rolled
+	// back and is re-running
+	actionCounts() (int, int)
+	truncateActions(preCommitCount int, commitCount int)
 	IsSystemContext() bool
 	GetSystemContext() MutateContext
 	Context() context.Context
@@ -77,6 +81,19 @@ func (self *mutateContext) setTx(tx *bbolt.Tx) MutateContext {
 		tx.OnCommit(self.handleCommit)
 	}
 	return self
+}
+
+func (self *mutateContext) actionCounts() (int, int) {
+	return len(self.preCommitActions), len(self.commitActions)
+}
+
+func (self *mutateContext) truncateActions(preCommitCount int, commitCount int) {
+	if preCommitCount < len(self.preCommitActions) {
+		self.preCommitActions = self.preCommitActions[:preCommitCount]
+	}
+	if commitCount < len(self.commitActions) {
+		self.commitActions = self.commitActions[:commitCount]
+	}
 }
 
 func (self *mutateContext) AddCommitAction(f func()) {
@@ -132,6 +149,14 @@ func (self *systemMutateContext) AddPreCommitAction(f func(MutateContext) error)
 
 func (self *systemMutateContext) AddCommitAction(f func()) {
 	self.wrapped.AddCommitAction(f)
+}
+
+func (self *systemMutateContext) actionCounts() (int, int) {
+	return self.wrapped.actionCounts()
+}
+
+func (self *systemMutateContext) truncateActions(preCommitCount int, commitCount int) {
+	self.wrapped.truncateActions(preCommitCount, commitCount)
 }
 
 func (self *systemMutateContext) runPreCommitActions() error {
